@@ -68,6 +68,9 @@ enum K {
     Abs,
     Id,
     Less,
+    /// `Cast(int32->f32) -> MatMul(x, W) -> Cast(f32->int32)` with `W` a constant f32 weight of the
+    /// same graph (prepackable input).
+    Mm,
 }
 
 impl K {
@@ -80,6 +83,7 @@ impl K {
             K::Abs => "Abs",
             K::Id => "Identity",
             K::Less => "Less",
+            K::Mm => "MatMul",
         }
     }
     fn tok(self) -> &'static str {
@@ -91,6 +95,7 @@ impl K {
             K::Abs => "abs",
             K::Id => "id",
             K::Less => "less",
+            K::Mm => "mm",
         }
     }
 }
@@ -167,6 +172,13 @@ impl G {
             *ctr += 1;
             let nm = format!("n{}", *ctr);
             match op {
+                Op::P { k: K::Mm, ins, out } => {
+                    let a = format!("v{out}a");
+                    let b = format!("v{out}b");
+                    nodes.push(ONode::new("Cast", &format!("{nm}a"), &[&vn(ins[0])], &[&a]).attr("to", Attr::Int(dt::FLOAT as i64)));
+                    nodes.push(ONode::new("MatMul", &format!("{nm}b"), &[&a, &vn(ins[1])], &[&b]));
+                    nodes.push(ONode::new("Cast", &format!("{nm}c"), &[&b], &[&vn(*out)]).attr("to", Attr::Int(dt::INT32 as i64)));
+                }
                 Op::P { k, ins, out } => {
                     let ins: Vec<String> = ins.iter().map(|&n| vn(n)).collect();
                     let insr: Vec<&str> = ins.iter().map(|s| s.as_str()).collect();
@@ -198,6 +210,15 @@ impl G {
             }
         }
         *ctr += 1;
+        // constants used as MatMul weights are encoded as f32 initializers
+        let weights: HashSet<Name> = self
+            .ops
+            .iter()
+            .filter_map(|op| match op {
+                Op::P { k: K::Mm, ins, .. } => Some(ins[1]),
+                _ => None,
+            })
+            .collect();
         OGraph {
             name: format!("g{}", *ctr),
             nodes,
@@ -206,7 +227,12 @@ impl G {
                 .iter()
                 .map(|(n, t)| {
                     let dims: Vec<i64> = t.shape.iter().map(|&d| d as i64).collect();
-                    OTensor::i32s(&vn(*n), &dims, &t.data)
+                    if weights.contains(n) {
+                        let f: Vec<f32> = t.data.iter().map(|&x| x as f32).collect();
+                        OTensor::f32s(&vn(*n), &dims, &f)
+                    } else {
+                        OTensor::i32s(&vn(*n), &dims, &t.data)
+                    }
                 })
                 .collect(),
             inputs: self.inputs.iter().map(|&n| ValueInfo::new(&vn(n), dt::INT32, None)).collect(),
@@ -236,6 +262,13 @@ impl Flat {
         let n = self.fresh();
         let dims: Vec<i64> = t.shape.iter().map(|&d| d as i64).collect();
         self.inits.push(OTensor::i32s(&n, &dims, &t.data));
+        n
+    }
+    fn init_f32(&mut self, t: &T) -> String {
+        let n = self.fresh();
+        let dims: Vec<i64> = t.shape.iter().map(|&d| d as i64).collect();
+        let f: Vec<f32> = t.data.iter().map(|&x| x as f32).collect();
+        self.inits.push(OTensor::f32s(&n, &dims, &f));
         n
     }
     fn node(&mut self, op: &str, ins: &[&str]) -> String {
@@ -299,13 +332,49 @@ fn eval_graph(
     for (n, a) in g.inputs.iter().zip(args) {
         env.insert(*n, a);
     }
+    let weights: HashSet<Name> = g
+        .ops
+        .iter()
+        .filter_map(|op| match op {
+            Op::P { k: K::Mm, ins, .. } => Some(ins[1]),
+            _ => None,
+        })
+        .collect();
     for (n, t) in &g.consts {
-        let f = flat.init(t);
+        let f = if weights.contains(n) { flat.init_f32(t) } else { flat.init(t) };
         env.insert(*n, (t.clone(), f));
     }
     let get = |env: &Env, n: Name| -> Result<(T, String), String> { env.get(&n).cloned().ok_or(format!("missing v{n}")) };
     for op in &g.ops {
         match op {
+            Op::P { k: K::Mm, ins, out } => {
+                let a = get(&env, ins[0])?;
+                let w = get(&env, ins[1])?;
+                if a.0.shape.len() != 2 || w.0.shape.len() != 2 || a.0.shape[1] != w.0.shape[0] {
+                    return Err("mm_shape".into());
+                }
+                // keep everything exactly representable in f32
+                if a.0.data.iter().any(|x| x.unsigned_abs() > (1 << 18)) {
+                    return Err("mm_range".into());
+                }
+                let (r, n, m) = (a.0.shape[0], a.0.shape[1], w.0.shape[1]);
+                let mut data = vec![0i32; r * m];
+                for i in 0..r {
+                    for j in 0..m {
+                        let mut acc = 0i64;
+                        for l in 0..n {
+                            acc += a.0.data[i * n + l] as i64 * w.0.data[l * m + j] as i64;
+                        }
+                        data[i * m + j] = acc as i32;
+                    }
+                }
+                let fa = flat.node("Cast", &[&a.1]);
+                flat.nodes.last_mut().unwrap().attrs.push(("to".into(), Attr::Int(dt::FLOAT as i64)));
+                let fb = flat.node("MatMul", &[&fa, &w.1]);
+                let fc = flat.node("Cast", &[&fb]);
+                flat.nodes.last_mut().unwrap().attrs.push(("to".into(), Attr::Int(dt::INT32 as i64)));
+                env.insert(*out, (T { shape: vec![r, m], data }, fc));
+            }
             Op::P { k, ins, out } => {
                 let vs: Vec<(T, String)> = ins.iter().map(|&n| get(&env, n)).collect::<Result<_, _>>()?;
                 let r = match k {
@@ -448,6 +517,10 @@ struct Gen<'a> {
     rng: &'a mut Rng,
     next: Name,
     n: usize,
+    /// shape of data tensors: `[n]`, or `[r, n]` in MatMul mode
+    dshape: Vec<usize>,
+    /// generate MatMul ops with constant weights and twin (structurally identical) branches
+    mm: bool,
     max_depth: u32,
 }
 
@@ -486,11 +559,12 @@ impl<'a> Gen<'a> {
     fn data_const(&mut self, g: &mut G, vis: &mut Vec<Var>, level: u32) -> Name {
         let n = self.fresh();
         let special = self.rng.chance(1, 3);
-        let data: Vec<i32> = (0..self.n)
+        let len: usize = self.dshape.iter().product();
+        let data: Vec<i32> = (0..len)
             .map(|_| if special { *self.rng.pick(&[0, 1]) } else { self.rng.range_i64(-3, 3) as i32 })
             .collect();
-        let data = if special { vec![data[0]; self.n] } else { data };
-        g.consts.push((n, T { shape: vec![self.n], data }));
+        let data = if special { vec![data[0]; len] } else { data };
+        g.consts.push((n, T { shape: self.dshape.clone(), data }));
         vis.push(Var { name: n, ty: Ty::D, level });
         n
     }
@@ -504,6 +578,55 @@ impl<'a> Gen<'a> {
         let out = self.fresh();
         g.ops.push(Op::P { k: K::Id, ins: vec![name], out });
         out
+    }
+
+    /// Copy of `g` with every name it defines replaced by a fresh one (free names are kept) and
+    /// every non-scalar constant re-randomised: same structure, same node ids after loading.
+    fn twin(&mut self, g: &G, map: &mut HashMap<Name, Name>) -> G {
+        let mut h = G::default();
+        for &i in &g.inputs {
+            let f = self.fresh();
+            map.insert(i, f);
+            h.inputs.push(f);
+        }
+        for (c, t) in &g.consts {
+            let f = self.fresh();
+            map.insert(*c, f);
+            let t2 = if t.shape.is_empty() {
+                t.clone()
+            } else {
+                T { shape: t.shape.clone(), data: t.data.iter().map(|_| self.rng.range_i64(-2, 2) as i32).collect() }
+            };
+            h.consts.push((f, t2));
+        }
+        let m = |map: &HashMap<Name, Name>, n: Name| *map.get(&n).unwrap_or(&n);
+        for op in &g.ops {
+            match op {
+                Op::P { k, ins, out } => {
+                    let ins = ins.iter().map(|&n| m(map, n)).collect();
+                    let f = self.fresh();
+                    map.insert(*out, f);
+                    h.ops.push(Op::P { k: *k, ins, out: f });
+                }
+                Op::If { cond, t, e, outs } => {
+                    let cond = m(map, *cond);
+                    let t2 = self.twin(t, map);
+                    let e2 = self.twin(e, map);
+                    let outs2: Vec<Name> = outs.iter().map(|&o| { let f = self.fresh(); map.insert(o, f); f }).collect();
+                    h.ops.push(Op::If { cond, t: t2, e: e2, outs: outs2 });
+                }
+                Op::Lp { trip, cond, car, body, outs } => {
+                    let trip = trip.map(|n| m(map, n));
+                    let cond = cond.map(|n| m(map, n));
+                    let car = car.iter().map(|&n| m(map, n)).collect();
+                    let b2 = self.twin(body, map);
+                    let outs2: Vec<Name> = outs.iter().map(|&o| { let f = self.fresh(); map.insert(o, f); f }).collect();
+                    h.ops.push(Op::Lp { trip, cond, car, body: b2, outs: outs2 });
+                }
+            }
+        }
+        h.outputs = g.outputs.iter().map(|&n| m(map, n)).collect();
+        h
     }
 
     fn gen_graph(&mut self, role: Role, parent_vis: &[Var], level: u32) -> G {
@@ -576,7 +699,13 @@ impl<'a> Gen<'a> {
                 };
                 let nout = 1 + self.rng.usize_below(2);
                 let t = self.gen_graph(Role::Branch(nout), &vis, level + 1);
-                let e = self.gen_graph(Role::Branch(nout), &vis, level + 1);
+                let e = if self.mm && self.rng.chance(1, 2) {
+                    // same structure (hence the same node ids), different constants / weights
+                    let mut map = HashMap::new();
+                    self.twin(&t, &mut map)
+                } else {
+                    self.gen_graph(Role::Branch(nout), &vis, level + 1)
+                };
                 let outs: Vec<Name> = (0..nout).map(|_| self.fresh()).collect();
                 for &o in &outs {
                     local_ops.insert(o);
@@ -623,6 +752,17 @@ impl<'a> Gen<'a> {
                     vis.push(Var { name: o, ty: Ty::X, level });
                 }
                 g.ops.push(Op::Lp { trip, cond, car, body, outs });
+            } else if self.mm && r < 52 {
+                // MatMul with a fresh constant weight of this graph
+                let Some(a) = self.pick(&vis, level, |t| t == Ty::D) else { continue };
+                let w = self.fresh();
+                let nn = self.n;
+                let data: Vec<i32> = (0..nn * nn).map(|_| self.rng.range_i64(-2, 2) as i32).collect();
+                g.consts.push((w, T { shape: vec![nn, nn], data }));
+                let out = self.fresh();
+                g.ops.push(Op::P { k: K::Mm, ins: vec![a.name, w], out });
+                local_ops.insert(out);
+                vis.push(Var { name: out, ty: Ty::D, level });
             } else if r < 55 {
                 // unary, in-place capable
                 let k = *self.rng.pick(&[K::Neg, K::Abs, K::Id, K::Id]);
@@ -814,7 +954,7 @@ fn shrink_candidates(g: &G, top: bool) -> Vec<G> {
     for i in 0..g.ops.len() {
         // replace a primitive by an Identity of one of its inputs / rewire
         match &g.ops[i] {
-            Op::P { k, ins, out } if *k != K::Id && *k != K::Less => {
+            Op::P { k, ins, out } if *k != K::Id && *k != K::Less && *k != K::Mm => {
                 for x in ins {
                     let mut h = g.clone();
                     h.ops[i] = Op::P { k: K::Id, ins: vec![*x], out: *out };
@@ -1087,6 +1227,35 @@ fn scenarios() -> Vec<(&'static str, G, Vec<T>)> {
     };
     v.push(("s9_branch_returns_capture", top, vec![d(2, &[1, 2]), d(2, &[3, 4]), T::scalar(1)]));
 
+    // s10: twin branches (same structure => same node ids) with different MatMul weights, LHS with
+    // two rows: with prepacked weights each branch must use its OWN weight cache.
+    for c in [1, 0] {
+        let t = G {
+            inputs: vec![],
+            consts: vec![(300, T { shape: vec![2, 2], data: vec![1, 2, 0, 1] })],
+            ops: vec![Op::P { k: K::Mm, ins: vec![1, 300], out: 301 }],
+            outputs: vec![301],
+        };
+        let e = G {
+            inputs: vec![],
+            consts: vec![(310, T { shape: vec![2, 2], data: vec![-1, 0, 2, -2] })],
+            ops: vec![Op::P { k: K::Mm, ins: vec![1, 310], out: 311 }],
+            outputs: vec![311],
+        };
+        // nested once more inside a loop body, with its own twin If
+        let top = G {
+            inputs: vec![1, 3],
+            consts: vec![],
+            ops: vec![Op::If { cond: 3, t, e, outs: vec![6] }],
+            outputs: vec![6],
+        };
+        v.push((
+            if c == 1 { "s10_twin_branches_matmul_then" } else { "s10_twin_branches_matmul_else" },
+            top,
+            vec![T { shape: vec![2, 2], data: vec![1, 2, 3, 4] }, T::scalar(c)],
+        ));
+    }
+
     // s7: two outputs that are Identity of the same constant (optimizer: b-C01's finding).
     let top = G {
         inputs: vec![1],
@@ -1116,10 +1285,10 @@ fn classify_run_err(msg: &str) -> String {
 }
 
 /// Run `bytes` as a model; answer string.
-fn run_model(bytes: &[u8], opt: bool, owned: bool, in_names: &[String], ins: &[T], out_names: &[String]) -> String {
+fn run_model(bytes: &[u8], opt: bool, owned: bool, prepack: bool, in_names: &[String], ins: &[T], out_names: &[String]) -> String {
     let bytes = bytes.to_vec();
     let r = hcommon::catch(move || -> String {
-        let model = match ModelOptions::with_all_ops().enable_optimization(opt).load(bytes) {
+        let model = match ModelOptions::with_all_ops().enable_optimization(opt).prepack_weights(prepack).load(bytes) {
             Ok(m) => m,
             Err(e) => {
                 let m = e.to_string().replace(['\n', '\t'], " ");
@@ -1201,8 +1370,12 @@ fn eval_case(tag: &str, g: &G, ins: &[T]) -> Evald {
     let in_names: Vec<String> = g.inputs.iter().map(|&n| vn(n)).collect();
     let out_names: Vec<String> = g.outputs.iter().map(|&n| vn(n)).collect();
     let mut answers = Vec::new();
-    for (opt, owned) in [(false, false), (false, true), (true, false), (true, true)] {
-        answers.push(((opt, owned), run_model(&nested, opt, owned, &in_names, ins, &out_names)));
+    // (optimisation, owned inputs, prepacked weights)
+    for (opt, owned, prepack) in
+        [(false, false, false), (false, true, false), (true, false, false), (true, true, false), (false, false, true), (true, true, true)]
+    {
+        let tag = format!("{opt} prepack={prepack}");
+        answers.push(((tag, owned), run_model(&nested, opt, owned, prepack, &in_names, ins, &out_names)));
     }
     let ans = answers[0].1.clone();
     let mut fail: Option<String> = None;
@@ -1240,7 +1413,7 @@ fn eval_case(tag: &str, g: &G, ins: &[T]) -> Evald {
                 outputs: fouts.iter().map(|o| ValueInfo::new(o, dt::INT32, None)).collect(),
                 value_infos: vec![],
             };
-            let fl = run_model(&fg.into_model_bytes(21), false, false, &in_names, ins, &fouts);
+            let fl = run_model(&fg.into_model_bytes(21), false, false, false, &in_names, ins, &fouts);
             if fail.is_none() && fl != want {
                 // the oracle itself is inconsistent: report, but as a harness problem
                 fail = Some(format!("inlined model through rten gives `{fl}` but the reference interpreter gives `{want}`"));
@@ -1364,14 +1537,18 @@ fn main() {
     for i in 0..cases {
         let n = 1 + rng.usize_below(3);
         let max_depth = if args.thorough { 1 + rng.below(3) as u32 } else { 1 + rng.below(3) as u32 };
-        let mut gen = Gen { rng: &mut rng, next: 0, n, max_depth };
+        // a third of the programs: 2-D data, MatMul with constant weights, twin branches
+        let mm = rng.chance(1, 3);
+        let dshape = if mm { vec![2 + rng.usize_below(2), n] } else { vec![n] };
+        let mut gen = Gen { rng: &mut rng, next: 0, n, dshape: dshape.clone(), mm, max_depth };
         let mut g = gen.gen_graph(Role::Top, &[], 0);
         dce(&mut g);
         // inputs: D.. then 2 M then 2 B (in the order gen_graph declared them)
         let nd = g.inputs.len() - 4;
         let mut ins = Vec::new();
         for _ in 0..nd {
-            ins.push(T { shape: vec![n], data: (0..n).map(|_| rng.range_i64(-4, 4) as i32).collect() });
+            let len: usize = dshape.iter().product();
+            ins.push(T { shape: dshape.clone(), data: (0..len).map(|_| rng.range_i64(-4, 4) as i32).collect() });
         }
         for _ in 0..2 {
             let lo = if rng.chance(1, 6) { 0 } else { 1 };
@@ -1381,7 +1558,17 @@ fn main() {
             ins.push(T::scalar(rng.chance(3, 4) as i32));
         }
         let _ = i;
-        run_case(&mut out, "rnd", &g, &ins);
+        if mm {
+            // skip programs whose MatMul operands leave the range where f32 is exact
+            let args: Vec<(T, String)> = g.inputs.iter().zip(&ins).map(|(n, t)| (t.clone(), vn(*n))).collect();
+            let pre = eval_graph(&g, &Env::new(), args, &mut Flat::default(), &mut Events::default(), 0);
+            if matches!(&pre, Err(e) if e == "mm_range") {
+                out.bucket("skipped_mm_range");
+                continue;
+            }
+            out.bucket("matmul_mode");
+        }
+        run_case(&mut out, if mm { "mm" } else { "rnd" }, &g, &ins);
     }
     out.note("each case: nested ONNX model run with optimisation off/on x borrowed/owned inputs, compared with the inlined/unrolled model run through rten and with a reference interpreter; answers compared with the Lean naive semantics");
     out.finish("nested If/Loop model == inlined/unrolled model (bit-identical int32), all configurations agree, inputs requested as outputs unchanged");
